@@ -16,6 +16,11 @@ from .man import Man
 from .cov import Cov
 
 
+def _rebuild(cls, coord):
+    """Used for unpickling"""
+    return np.ndarray.__new__(cls, (6,), buffer=np.array(coord), dtype=float)
+
+
 class StateVector(np.ndarray):
     """Coordinate representation"""
 
@@ -57,24 +62,15 @@ class StateVector(np.ndarray):
     def __reduce__(self):
         """For pickling
 
-        see http://stackoverflow.com/questions/26598109
+        The array is rebuilt on top of a buffer, as done by the constructor.
+        An array restored directly by numpy owns its data (its ``base`` is
+        ``None``) and could neither be copied nor converted.
         """
-        reconstruct, clsinfo, state = super().__reduce__()
-
-        new_state = {
-            "basestate": state,
-            "data": self._data,
-        }
-
-        return reconstruct, clsinfo, new_state
+        return _rebuild, (self.__class__, np.array(self)), self._data
 
     def __setstate__(self, state):
-        """For pickling
-
-        see http://stackoverflow.com/questions/26598109
-        """
-        super().__setstate__(state["basestate"])
-        object.__setattr__(self, "_data", state["data"])
+        """For pickling"""
+        object.__setattr__(self, "_data", state)
 
     def copy(self, *, frame=None, form=None, same=None):
         """Provide a new object of the same point in space-time. Optionally,
